@@ -94,6 +94,21 @@ fn rope(bytes: &[u8], shape: &str) -> BinaryData {
                 BinaryData::new(bytes.to_vec())
             }
         }
+        // a tile that does NOT start at offset 0 of the flattened output: one leading byte, then the rest tiled (when the
+        // rest is periodic) - the right operand of a concat is where offset bugs in flattening hide
+        "head_tiled" if bytes.len() >= 3 => {
+            let rest = &bytes[1..];
+            let n = rest.len();
+            let mut p = n;
+            for cand in 1..=n {
+                if n % cand == 0 && (0..n).all(|i| rest[i] == rest[i % cand]) {
+                    p = cand;
+                    break;
+                }
+            }
+            let right = if p < n { BinaryData::Tiled { unit: Rc::new(BinaryData::new(rest[..p].to_vec())), count: n / p } } else { BinaryData::new(rest.to_vec()) };
+            BinaryData::concat(Rc::new(BinaryData::new(bytes[..1].to_vec())), Rc::new(right))
+        }
         "concat3" if bytes.len() >= 3 => {
             let k = bytes.len() / 3;
             let l = Rc::new(BinaryData::concat(Rc::new(BinaryData::new(bytes[..k].to_vec())), Rc::new(BinaryData::new(bytes[k..2 * k].to_vec()))));
